@@ -73,6 +73,34 @@ Example C07_return_examples :
   /\ retype_header (s2l "def f(a) -> int:  # why") (Some (s2l "int")) None = Some (s2l "def f(a):").
 Proof. repeat split; vm_compute; reflexivity. Qed.
 
+(* The docstring edit (maybe_replace_doc_str_in_function_or_class) inserts, deletes or replaces ONE node, the one right after the
+   def / class header at index i: the header, everything before it, and everything from the second node after it on are
+   written back byte for byte, whatever the edit. *)
+Theorem C07_doc_edit_outside : forall e i (l : list str),
+  exists mid k, (S i <= k <= S (S i))%nat /\ concat (apply_edit e i l) = concat (firstn (S i) l) ++ mid ++ concat (skipn k l).
+Proof. exact apply_edit_outside. Qed.
+Print Assumptions C07_doc_edit_outside.
+(* the new node is a triple-quoted string on lines of its own, its quotes indented like the node it is placed in front of *)
+Theorem C07_new_docstring_node_shape : forall after doc,
+  exists space body, formatted_doc_str after doc = [NL] ++ space ++ TQ ++ body ++ [NL] ++ space ++ TQ /\ forallb is_space space = true.
+Proof. exact formatted_doc_str_shape. Qed.
+Example C07_doc_edit_examples :
+  doc_edit [] (s2l "
+    x = 1") false = ENop
+  /\ doc_edit [] (s2l "
+    """"""old""""""") true = EDeleteAfter
+  /\ doc_edit (s2l "old") (s2l "
+    """"""  old
+    """"""") true = ENop
+  /\ doc_edit (s2l "
+Summary
+") (s2l "
+    return 1") false = EInsertAfter (s2l "
+    """"""
+Summary
+    """"""").
+Proof. repeat split; vm_compute; reflexivity. Qed.
+
 (* Which CST node an AST definition is written back to (find_cst_at_ast): the FIRST node whose line window contains the
    definition's line and whose kind and name agree; when there is none, no node satisfies the three conditions. *)
 Theorem C07_find_cst_first_match : forall l lineno kind name k,
